@@ -3,6 +3,7 @@ import FgaVerif.Proofs.ReachComplete
 import FgaVerif.Proofs.WeightsCongr
 import FgaVerif.Proofs.WAssignCycle
 import FgaVerif.Proofs.WGraphDst
+import FgaVerif.Proofs.WAssignPost
 /-! # C05 — a model is accepted iff it is well-founded (specification side)
 
     As for C04, `Spec/Weights.lean` is a specification the real verdict is compared with under every
@@ -45,6 +46,12 @@ import FgaVerif.Proofs.WGraphDst
       `built_graph_closed` shows every graph that comes out of the (ported) construction is closed
       (`Proofs/WGraphDst.lean`, an invariant through `GetOrAddNode`/`AddEdge`/`UpsertEdge` and the
       recursion over the rewrite), hence `algorithm_prepass_exact_on_built_graphs` with no hypothesis.
+
+    * `algorithm_accepted_relations_reach_a_type` — the contrapositive of "a relation that can reach no
+      terminal user type at all is rejected", for the port and every start order: if the assignment
+      succeeds, every relation of the graph carries at least one weight entry, and (no terminal type being
+      named `R#…`) that entry is keyed by something that is not a cycle placeholder
+      (`Proofs/WAssignPost.lean`; that the key is a terminal type the relation reaches is not proved).
 
     Not proved: that the port's verdict equals the specification's in general. -/
 namespace FgaVerif.Props.C05
@@ -240,5 +247,35 @@ example : FgaVerif.Model.WAssign.RPath cycG "doc#a" "doc#a" :=
       (.one (by unfold FgaVerif.Model.WAssign.RStep; decide)))
 example : (match FgaVerif.Model.WAssign.assignWeights cycG ["union:0"] with
     | .error e => e == .modelCycle | .ok _ => false) = true := by decide +kernel
+
+/-- **a relation that reaches no terminal type never passes the (ported) algorithm**: after a successful
+    assignment, whatever the start order, every relation has a weight entry whose key is not a placeholder -/
+theorem algorithm_accepted_relations_reach_a_type (g : FgaVerif.Model.WGraph.G)
+    (hn : FgaVerif.Model.WAssign.noPHTypesB g = true) (order : List String) (st : FgaVerif.Model.WAssign.AState)
+    (h : FgaVerif.Model.WAssign.assignWeights g order = .ok st) (n : FgaVerif.Model.WGraph.WNode) (hmem : n ∈ g.nodes)
+    (hk : FgaVerif.Model.WAssign.nodeType g n.uniqueLabel = .typeAndRelation) :
+    ∃ k v, (k, v) ∈ FgaVerif.Model.WAssign.aget n.uniqueLabel st.nodeW ∧ k.startsWith "R#" = false ∧ 1 ≤ v := by
+  have hne := (FgaVerif.Model.WAssign.assignWeights_nonempty g order st h).1 n hmem (Or.inl hk)
+  have hc := FgaVerif.Model.WAssign.assignWeights_clean g (FgaVerif.Model.WAssign.noPHTypesB_sound g hn) order st h
+  have hp := (FgaVerif.Model.WAssign.assignWeights_nonempty g order st h).2.1
+  cases hw : FgaVerif.Model.WAssign.aget n.uniqueLabel st.nodeW with
+  | nil => exact absurd hw hne
+  | cons p rest =>
+    have hmem' : p ∈ FgaVerif.Model.WAssign.aget n.uniqueLabel st.nodeW := by rw [hw]; exact List.mem_cons_self ..
+    exact ⟨p.1, p.2, List.mem_cons_self .., hc.node n.uniqueLabel p.1 ⟨p.2, hmem'⟩, hp _ p hmem'⟩
+
+/-- non-vacuity: `define a: [doc#a]` (a cycle that leads nowhere) is rejected; `define a: [user, doc#a]` is accepted -/
+def nowhere : FgaVerif.Model.WGraph.G := {
+  nodes := [⟨"doc#a", "doc#a", .typeAndRelation⟩],
+  edges := [("doc#a", [⟨"doc#a", "doc#a", .direct, "", ["none"]⟩])] }
+def somewhere : FgaVerif.Model.WGraph.G := {
+  nodes := [⟨"doc#a", "doc#a", .typeAndRelation⟩, ⟨"user", "user", .specificType⟩],
+  edges := [("doc#a", [⟨"doc#a", "user", .direct, "", ["none"]⟩, ⟨"doc#a", "doc#a", .direct, "", ["none"]⟩])] }
+example : (match FgaVerif.Model.WAssign.assignWeights nowhere [] with
+    | .error e => e == .invalidModel | .ok _ => false) = true := by decide +kernel
+example : FgaVerif.Model.WAssign.noPHTypesB somewhere = true ∧
+    (match FgaVerif.Model.WAssign.assignWeights somewhere [] with
+      | .ok st => FgaVerif.Model.WAssign.aget "doc#a" st.nodeW | .error _ => []) = [("user", 2147483647)] := by
+  decide +kernel
 
 end FgaVerif.Props.C05
